@@ -269,12 +269,16 @@ class _Ctx:
     loops: Tuple[int, ...]
 
 
-_cache: Dict[int, CFG] = {}
+import weakref
+_cache: "weakref.WeakKeyDictionary" = weakref.WeakKeyDictionary()
 
 
 def cfg_of(func) -> CFG:
-    """CFG of a FuncInfo (cached by node identity)."""
-    k = id(func.node)
-    if k not in _cache:
-        _cache[k] = CFG(func.body)
-    return _cache[k]
+    """CFG of a FuncInfo, cached per AST node object (weakly: an id()-keyed table would hand a stale graph to a new node that
+    happens to reuse the address of a collected one -- views of functions are created and dropped all the time)."""
+    node = func.node
+    c = _cache.get(node)
+    if c is None:
+        c = CFG(func.body)
+        _cache[node] = c
+    return c
